@@ -2,3 +2,6 @@ import TurVerif.Model.Varint
 import TurVerif.Model.KeyEnc
 import TurVerif.Model.KeyEncJson
 import TurVerif.Model.Simd
+import TurVerif.Model.RowSerde
+import TurVerif.Model.SubSpill
+import TurVerif.Model.Record
